@@ -1,7 +1,7 @@
 (* Helper facts for Life/Silent.v: components of the world after deactivate / buf_process, an
    event of an inactive module, restart events among the events a module event adds. *)
 From Coq Require Import List NArith Bool Lia PeanoNat.
-From DesVerif Require Import Life.Model Life.Base Life.Step Life.Trace Life.Frame Life.Inert Life.Events Life.Restart Life.Agree.
+From DesVerif Require Import Life.Model Life.Base Life.Step Life.Trace Life.Frame Life.Inert Life.Events Life.Restart Life.Agree Life.Strip Life.Quiet.
 Import ListNotations.
 Open Scope N_scope.
 
@@ -96,5 +96,98 @@ Proof.
   induction ms as [|i ms IH]; intros w; cbn [end_seq]; [reflexivity|].
   destruct (end_seq sc0 now ms (fst (end_rec sc0 now i w))) as [w2 es] eqn:Es. cbn [snd filter].
   replace es with (snd (end_seq sc0 now ms (fst (end_rec sc0 now i w)))) by (rewrite Es; reflexivity). apply IH.
+Qed.
+
+
+(* ---- an inert event on a world in which m is dead ---- *)
+Lemma inert_step m sc0 w t ev f1 :
+  active (w_mod w m) = false -> shut (w_mod w m) = None -> w_buf w = [] -> WF (w_fes w) ->
+  restart_times m (w_fes w) = [] -> fes_fetch (w_fes w) = Some (t, ev, f1) -> inert m ev = true ->
+  let w1 := fst (process sc0 (set_fes w f1) t ev) in
+  (forall j, j <> m -> w_mod w1 j = w_mod w j) /\ active (w_mod w1 m) = false /\ shut (w_mod w1 m) = None /\
+  w_buf w1 = [] /\ WF (w_fes w1) /\ restart_times m (w_fes w1) = [] /\
+  (forall f', FesRel m (w_fes w) f' -> FesRel m (w_fes w1) f') /\
+  snd (process sc0 (set_fes w f1) t ev) = [].
+Proof.
+  intros Ha Hs Hb W Hn Hf Hi w1.
+  destruct (WF_fetch _ _ _ _ W Hf) as [W1 _].
+  assert (Hn1 : restart_times m f1 = []).
+  { pose proof (fes_fetch_order _ _ _ _ Hf) as Ho. unfold restart_times in *. rewrite Ho in Hn. unfold rtimes in *. cbn [filter] in Hn.
+    destruct (is_restart m (t, ev)); [discriminate|exact Hn]. }
+  assert (Hwk : forall x, Forall (fun p => inert m (snd p) = true /\ is_restart m p = false) (wake_of m x)).
+  { intros x. unfold wake_of. destruct (timers x) as [|[tt tk] r]; [constructor|]. destruct (lt_nw tt (nw x)); [|constructor].
+    constructor; [|constructor]. cbn [snd inert]. rewrite N.eqb_refl. split; reflexivity. }
+  assert (Hfl : forall l f, Forall (fun p => inert m (snd p) = true /\ is_restart m p = false) l -> WF f ->
+                  WF (fes_flush l f) /\ restart_times m (fes_flush l f) = restart_times m f /\
+                  (forall f', FesRel m f f' -> FesRel m (fes_flush l f) f')).
+  { induction l as [|p l IH]; intros f Hl Wf; cbn [fes_flush fold_left]; [auto|].
+    inversion Hl as [|? ? [Hp1 Hp2] Hl']; subst. fold (fes_flush l (fes_add (fst p) (snd p) f)).
+    destruct (IH (fes_add (fst p) (snd p) f) Hl' (WF_add _ _ _ Wf)) as (I1 & I2 & I3).
+    split; [exact I1|]. split; [rewrite I2; apply fes_add_rt_other; destruct p; exact Hp2|].
+    intros f' R. apply I3, FesRel_add_l; assumption. }
+  assert (Hmod : forall fcb, (forall s, active (w_mod (x_w s) m) = false -> fcb s = s) ->
+     let w2 := fst (around sc0 t m fcb (set_fes w f1)) in
+     (forall j, j <> m -> w_mod w2 j = w_mod w j) /\ active (w_mod w2 m) = false /\ shut (w_mod w2 m) = None /\
+     w_buf w2 = [] /\ WF (w_fes w2) /\ restart_times m (w_fes w2) = [] /\
+     (forall f', FesRel m (w_fes w) f' -> FesRel m (w_fes w2) f') /\ snd (around sc0 t m fcb (set_fes w f1)) = []).
+  { intros fcb Hid w2. destruct (around_inactive sc0 t m fcb (set_fes w f1) Ha Hs Hb Hid) as (A1 & A2 & A3 & A4 & A5 & A6).
+    destruct (Hfl _ f1 (Hwk (w_mod (activate t m (set_fes w f1)) m)) W1) as (F1 & F2 & F3).
+    subst w2. rewrite A2. cbn [w_fes set_fes]. split; [exact A3|]. split; [exact A4|]. split; [exact A5|]. split; [exact A6|].
+    split; [exact F1|]. split; [rewrite F2; exact Hn1|]. split; [|exact A1].
+    intros f' R. apply F3. eapply fetch_inert_l; eauto. }
+  destruct ev as [i far x|i x|i|i]; cbn [inert] in Hi; try discriminate; apply N.eqb_eq in Hi; subst i; unfold process in *.
+  - subst w1. unfold walk. cbn [w_mod set_fes]. rewrite Ha. cbn [fst snd set_fes w_mod w_buf w_fes].
+    repeat (split; [assumption|]). split; [intros; reflexivity|]. repeat (split; [assumption|]).
+    split; [intros f' R; eapply fetch_inert_l; [exact Hf|cbn [inert]; apply N.eqb_refl|exact R]|reflexivity].
+  - apply Hmod. intros s Hact. unfold handle_message. rewrite Hact. reflexivity.
+  - apply Hmod. intros s Hact. unfold async_wakeup. rewrite Hact. reflexivity.
+Qed.
+
+
+(* ... and on a module without woken tasks they change nothing the comparison looks at *)
+Lemma at_sim_start_div m k c now stage w s' : stage <> 0 -> Div m w (x_w s') ->
+  Div m w (x_w (fst (at_sim_start k c now m stage s'))) /\
+  snd (at_sim_start k c now m stage s') = false.
+Proof.
+  intros H [vb va vt vn vi vbu vtp vr vs]. apply N.eqb_neq in H. unfold at_sim_start. rewrite H.
+  unfold exec, spawn_all, poll_ready. cbn [combine seq length map run_prog fst snd].
+  wsimpl. rewrite !N.eqb_refl. wsimpl. rewrite vr. cbn [app fold_left catch fst snd x_w].
+  split; [|reflexivity].
+  constructor; cbn [on_w say x_w w_buf w_mod set_mod]; rewrite ?N.eqb_refl; cbn [w_mod set_mod]; rewrite ?N.eqb_refl;
+    cbn [timers nw inc bud tpanics ready shut set_ready]; try assumption; try reflexivity.
+  intros j Hj. pose proof (va j Hj) as Hv. apply N.eqb_neq in Hj. rewrite !Hj. exact Hv.
+Qed.
+
+
+Lemma fold_stopped {A} (f : xs * bool -> A -> xs * bool) (Hf : forall s a, f (s, true) a = (s, true)) :
+  forall l s, fold_left f l (s, true) = (s, true).
+Proof. induction l as [|a l IH]; intros s; cbn [fold_left]; [reflexivity|]. rewrite Hf. apply IH. Qed.
+
+
+Lemma loop_step_eq sc0 w now tr :
+  loop_step sc0 (w, now, tr) =
+  match fes_fetch (w_fes w) with
+  | None => inr (w, now, tr)
+  | Some (t, ev, f1) => inl (fst (loop_rec sc0 (set_fes w f1) t ev), t, tr ++ [snd (loop_rec sc0 (set_fes w f1) t ev)])
+  end.
+Proof.
+  unfold loop_step, loop_rec. destruct (fes_fetch (w_fes w)) as [[[t ev] f1]|]; [|reflexivity].
+  destruct (process sc0 (set_fes w f1) t ev). reflexivity.
+Qed.
+
+
+(* what the generated worlds of the panicking run provide *)
+Lemma gen_facts sc m w tr : Gen sc w tr ->
+  shut (w_mod w m) = None /\ (active (w_mod w m) = true -> restart_times m (w_fes w) = []) /\
+  (forall t f1, fes_fetch (w_fes w) = Some (t, EvRestart m, f1) -> restart_times m f1 = []).
+Proof.
+  intros HG. destruct (gen_WI sc w tr HG m) as [(_ & _ & Hs) _]. pose proof (gen_RI sc w tr HG m) as HR.
+  split; [exact Hs|]. split.
+  - intros Ha. destruct (pending m tr) eqn:Ep; [|exact HR]. exfalso.
+    assert (Hd : Down m w) by (apply (gen_down sc m w tr HG), pending_down; rewrite Ep; discriminate).
+    rewrite (dn_active _ _ Hd) in Ha. discriminate.
+  - intros t f1 Hf. pose proof (fes_fetch_order _ _ _ _ Hf) as Ho. unfold restart_times in *. rewrite Ho in HR.
+    unfold rtimes in *. cbn [filter is_restart snd] in HR. rewrite N.eqb_refl in HR. cbn [map fst] in HR.
+    destruct (pending m tr); [injection HR as _ HR; exact HR|discriminate].
 Qed.
 
